@@ -666,9 +666,17 @@ class G:
                 ps.append("return " + self.ch(["Foo(@.0)", "mk(&@)"]))
             elif t < 0.6 and is_enum:
                 ps.append("_ => " + self.ch(["todo!()", "panic!(\"no\")"]))
+            head = s
             if ps:
                 s += " | " + ", ".join(ps)
-            attrs.append(Instr(nm, s, tag=("trait", c)))
+            # structured copy of the parameters, for the written-out form (C14): marks, and the four repeatable kinds
+            info = {"head": head, "marks": [x.strip() for x in mark.split(",")] if mark and not mark.startswith("repeat(") else ([mark] if mark else []),
+                    "vars": next((x for x in ps if x.startswith("vars(")), None), "other": [x for x in ps if x.startswith("attribute(")],
+                    "update": next((x for x in ps if x.startswith("..")), None), "quick_return": next((x for x in ps if x.startswith("return ")), None),
+                    "default_case": next((x for x in ps if x.startswith("_ =>")), None)}
+            if mark.startswith("stop_repeat, repeat"):
+                info["marks"] = ["stop_repeat", mark.split(", ", 1)[1]]
+            attrs.append(Instr(nm, s, tag=("trait", c, info)))
             k += 1
         if is_enum:
             vs = [Variant(f"V{m}", "unit", [], [Instr("literal", str(m), tag=("lit", None))] if self.pr("lit", 0.3) else []) for m in range(r.randrange(1, 3))]
